@@ -192,12 +192,13 @@ pub struct XEnc {
     pub shared_members_carry_text: bool,
     /// table parts named xl/tbl/tN.xml instead of xl/tables/tableN.xml
     pub odd_table_part_names: bool,
-    /// write the attributes of a cell element as t, s, r instead of r, s, t (number cells then carry an explicit t="n", so
+    /// write the attributes of a cell element as t, s, r instead of r, s, t, and those of a shared f element as si, ref, t
+    /// instead of t, ref, si (number cells then carry an explicit t="n", so
     /// that there is a t to come first)
     pub cell_attrs_reversed: bool,
     /// the optional neighbours of sheetData a real writer emits: sheetPr, sheetFormatPr, cols, row spans / heights, cell cm/vm/ph
     /// attributes, sheetProtection, autoFilter, conditionalFormatting and dataValidations (with formula elements), pageMargins,
-    /// and an extLst whose x14 rules contain xm:f / xm:sqref elements
+    /// an extLst whose x14 rules contain xm:f / xm:sqref elements, and an extLst as last child of cells in odd columns
     pub extras: bool,
 }
 impl Default for XEnc {
@@ -348,11 +349,13 @@ pub fn sheet_xml(sh: &XSheet, enc: &XEnc, table_rids: &[String]) -> String {
                         body.push_str(&format!("{}>{}<![CDATA[{}]]><!-- rhs -->{}{}", tg.o("f"), esc_text(&cs[0].to_string()), cs[1], esc_text(&cs[2..].iter().collect::<String>()), tg.c("f")));
                     }
                     XFormula::Plain(s) => body.push_str(&format!("{}>{}{}", tg.o("f"), esc_text(s), tg.c("f"))),
+                    XFormula::SharedMaster { si, rf, text } if enc.cell_attrs_reversed => body.push_str(&format!("{} si=\"{}\" ref=\"{}\" t=\"shared\">{}{}", tg.o("f"), si, rf, esc_text(text), tg.c("f"))),
                     XFormula::SharedMaster { si, rf, text } => body.push_str(&format!("{} t=\"shared\" ref=\"{}\" si=\"{}\">{}{}", tg.o("f"), rf, si, esc_text(text), tg.c("f"))),
                     XFormula::SharedChild { si } if enc.shared_members_carry_text => {
                         let mt = cells.iter().find_map(|x| match &x.formula { Some(XFormula::SharedMaster { si: s2, text, .. }) if s2 == si => Some(text.clone()), _ => None }).unwrap_or_default();
                         body.push_str(&format!("{} t=\"shared\" si=\"{}\">{}{}", tg.o("f"), si, esc_text(&mt), tg.c("f")));
                     }
+                    XFormula::SharedChild { si } if enc.cell_attrs_reversed => body.push_str(&format!("{} si=\"{}\" t=\"shared\"/>", tg.o("f"), si)),
                     XFormula::SharedChild { si } => body.push_str(&format!("{} t=\"shared\" si=\"{}\"/>", tg.o("f"), si)),
                 }
             }
@@ -369,6 +372,8 @@ pub fn sheet_xml(sh: &XSheet, enc: &XEnc, table_rids: &[String]) -> String {
                 XVal::IsoDate(s) => body.push_str(&format!("{}>{}{}", tg.o("v"), s, tg.c("v"))),
                 XVal::None => {}
             }
+            // the schema allows a future-feature extension list as the last child of a cell
+            if enc.extras && !body.is_empty() && c.col % 2 == 1 { body.push_str(&format!("{}>{} uri=\"{{F8A3C1D2-0000-4000-8000-00000000C0DE}}\"/>{}", tg.o("extLst"), tg.o("ext"), tg.c("extLst"))); }
             if body.is_empty() { o.push_str(&format!("{}{}/>", tg.o("c"), attrs)); } else { o.push_str(&format!("{}{}>{}{}", tg.o("c"), attrs, body, tg.c("c"))); }
             cursor_col = c.col + 1;
             i += 1;
